@@ -40,6 +40,7 @@ PRIOS_TEXT_OK = ['', '', '', '!important', '! important', '!IMPORTANT', '!/*c*/i
 PRIOS_TEXT_BAD = ['!foo', '!', '!important x']
 UNKNOWN_NAMES = ['foo', '-x-y', 'zoom', 'a1', '_u', 'x€y', 'g']
 ESC_NAMES = ['a\\\\g', 'x\\\\-y']      # escaped backslash before a non-hex character
+UNKNOWN_DOM = ['fooBar', 'font-style', 'zoomLevel', 'colour', 'FontStyle', 'xY']   # no such generated attribute
 NAMES_BAD = ['', 'a b', '1a', '"x"', 'a:b', 'a;b', ' ', '/**/', '#a', 'a!']
 
 
@@ -252,14 +253,21 @@ def gen_decl_ops(rng, names):
             ops.append(('seti', nm(), val(), p))
         elif r < 0.58:
             b = rng.choice([x for x in base if x in names] or ['color'])
-            ops.append(('attrset', _toDOMname(b), b, val()))
+            if rng.random() < 0.12:
+                # not the DOM name of a known property: AttributeError, the block stays as it is
+                ops.append(('attrset', rng.choice(UNKNOWN_DOM), '', val()))
+            else:
+                ops.append(('attrset', _toDOMname(b), b, val()))
         elif r < 0.72:
             ops.append(('rm', nm(), 0 if rng.random() < 0.2 else 1))
         elif r < 0.77:
             ops.append(('deli', nm()))
         elif r < 0.81:
             b = rng.choice([x for x in base if x in names] or ['color'])
-            ops.append(('attrdel', _toDOMname(b), b))
+            if rng.random() < 0.12:
+                ops.append(('attrdel', rng.choice(UNKNOWN_DOM), ''))
+            else:
+                ops.append(('attrdel', _toDOMname(b), b))
         elif r < 0.89:
             ops.append(('text', text_items()))
         elif r < 0.96:
@@ -417,7 +425,11 @@ class Spec:
         k = op[0]
         before = list(self.entries)
         want = None            # expected reply; None = not checked
-        if k in ('set', 'seti', 'attrset'):
+        if k in ('attrset', 'attrdel') and not op[2]:
+            # not the DOM name of a known property: AttributeError, nothing changes
+            want = 'err crash:AttributeError'
+            self.stats['rejected'] += 1
+        elif k in ('set', 'seti', 'attrset'):
             if k == 'set':
                 _, name, value, prio, norm, repl = op
             elif k == 'seti':
